@@ -10,6 +10,21 @@ CLAIMED = {
    text="Decides, for every call site reachable from DBlockSync whose callee can fail because of a database or factomd fault (212 sites today), that the returned error is propagated, retried without commit, tolerated as a named sentinel, or aborts; swallowed errors (unbound, never tested, log-only, nil/other variable returned, converted to a plain result, rows.Err missing) are reported by call site. This is the 'no block is committed with part of its effects missing because an error was ignored' clause for all fault positions at once, which no fault-injection sample reaches. It does not decide that the retried run reproduces the fault-free ledger.",
    note="Trusted: x/tools go/ssa; database/sql and the factom client report every fault as a non-nil error. Errors of pure callees (parsers, graders, Convert) are verdicts on chain content, not faults, and are outside the obligation set. Path-insensitive: an error tested on one path is taken as tested.",
    ref="DESIGN.md §2.5, §4 C10"),
+ "C02": dict(
+   technique="typestate of the block *sql.Tx over the SSA CFG of the sync root (dominance, reachability-avoiding) + receiver-class analysis of every SQL write statement reachable from block processing + escape check of *sql.Tx + schema rules from the embedded SQL",
+   text="Decides that the program hands SQLite exactly one transaction per block containing all and only that block's writes plus the height record: every write reachable from SyncBlock/NullifyBurnAddress/InsertSynced runs on the caller's *sql.Tx (45+ statements, QueryAble arguments resolved per call site); in DBlockSync the order block -> InsertSynced -> Commit holds by dominance, Commit is confined to nil-error branches, every error branch rolls back, no path leaks the open transaction, the in-memory height can never get ahead of a failed block, the height applied is synced+1; Commit/Rollback exist nowhere else and the *sql.Tx never escapes; pn_sync_version is keyed by height and written by plain INSERT; start-up resumes from the persisted height. Every crash point inside a block is covered at once because all of them fall inside that one transaction. What SQLite does at a kill is trusted, not decided.",
+   note="Trusted: SQLite atomic commit/rollback, database/sql transaction semantics, go/ssa. Reads through the connection pool inside a block are listed in the evidence (they see committed state) and do not affect atomicity.",
+   ref="DESIGN.md §2.7 E3/E4, §4 C02"),
+ "C09": dict(
+   technique="carried-state footprint: field-based shared-location analysis over go/ssa of every in-memory location written and read by functions reachable from the sync root, context = sync goroutine",
+   text="Decides a sufficient structural condition and reports its exceptions: the only in-memory state that block n may leave for block n+1 is the sync height (persisted and restored). The footprint today is that height plus the three rolling-average cache fields, which are recorded as a known genuine defect (count-trimmed incrementally, window-rebuilt after restart); any new carried location or new writer of one is a violation. Does not decide equality of ledgers across restart placements.",
+   note="Trusted: go/ssa, module call graph, field-based location abstraction. A future cache that is semantically transparent would be reported and would need an audited entry after review (stated in DESIGN.md §4 C09).",
+   ref="DESIGN.md §2.7 E5, §4 C09"),
+ "C18": dict(
+   technique="who-may-write over call graph x SQL catalogue from the JSON-RPC method-map roots + per-root-context shared-location (static race footprint) analysis with lock sets + dominance of the height publication by Commit's nil edge",
+   text="Decides that no API handler can reach an SQL write, BeginTx or *sql.Tx method (14 roots, all statements resolved), that the block transaction never escapes the sync goroutine, that no memory location reachable from the shared singletons or package variables is written by one of the two concurrently running roots and accessed by the other without a common mutex or atomic access, and that the sync height handlers read is advanced only after Commit succeeded. Covers every interleaving because it is a footprint argument, not a schedule sample. Does not decide linearisability of multi-statement reads or SQLite lock contention.",
+   note="Trusted: database/sql pool reads never observe another connection's uncommitted transaction; go/ssa; call graph (static calls, module-interface CHA, closures, function values, json callbacks). Field-based abstraction: all objects of one struct type share one location per field; per-call objects (local allocations) are excluded per root context.",
+   ref="DESIGN.md §2.7 E4/E5, §4 C18"),
 }
 
 PENDING_REASON = "not claimed at this commit: the engine for this property is not built yet (see DESIGN.md §8 build order); no verdict is given"
